@@ -1,8 +1,13 @@
 #!/bin/sh
 # Runs the repository's pinned baseline suite (guard off) on a tree and prints the
 # pass/fail summary. usage: tools/baseline.sh [repo-dir]   (default /repo)
+# For a scratch copy/worktree the copy's own src/ is put first on PYTHONPATH so that
+# the tests import the copy and not the editable install of /repo.
 REPO="${1:-/repo}"
 cd "$REPO" || exit 2
 unset AMPFORM_VERIF
+PYTHONPATH="$REPO/src"
+export PYTHONPATH
+/venv/bin/python -c "import ampform,sys; print('testing', ampform.__file__)"
 exec /venv/bin/python -m pytest -ra -q -p no:cacheprovider --timeout=900 \
   --continue-on-collection-errors 2>&1 | tail -n "${TAIL:-14}"
